@@ -2,6 +2,7 @@ from shexer.core.shexing.strategy.minimal_iri_strategy.abstract_min_iri_strategy
 import re
 
 _SEP_CHARS = re.compile("[:/#]")
+_JUST_A_SCHEME = re.compile("^[A-Za-z][A-Za-z0-9+.-]*:/*$")
 
 
 class AnnotateMinIriStrategy(AbstractMinIriStrategy):
@@ -32,6 +33,6 @@ class AnnotateMinIriStrategy(AbstractMinIriStrategy):
         candidate_min_iri = backwards_str[last_sep_char.start():][::-1]
         if len(candidate_min_iri) < 3:  # Just too short. Kind of an arbitrary number
             return None
-        if candidate_min_iri.startswith("http") and len(candidate_min_iri) < 8:  # http:// or https:// + an extra char
+        if _JUST_A_SCHEME.match(candidate_min_iri):  # http://, https://, urn: ... with nothing else
             return None
         return candidate_min_iri  # Let's say it is a worthy one
